@@ -4,7 +4,7 @@
 From Coq Require Import ZArith List Bool Lia.
 From RecordUpdate Require Import RecordUpdate.
 From SimVerif Require Import Model.Base Model.Env Model.FamEnv Model.RM Model.Maint Model.FloorTypes Model.Floor Model.FamFloor.
-From SimVerif Require Import Proofs.FloorSteps Proofs.FloorInv Proofs.FloorSys.
+From SimVerif Require Import Proofs.FloorReach Proofs.FloorSteps Proofs.FloorInv Proofs.FloorSys.
 Import ListNotations.
 Open Scope Z_scope.
 
@@ -35,12 +35,17 @@ Theorem C05_fifo_min_delay : forall nw fuel uops a w d x,
   exists x', aget d (f_devs (exec_fact fuel uops a w nw)) = Some x' /\ fifo nw x x'.
 Proof. exact exec_fifo. Qed.
 
+(** the buffer invariant in every reachable state of every well-formed scenario *)
+Theorem C05_always : forall sc s d x, reach_fl sc s -> aget d (f_devs (fst s)) = Some x -> BufInv x.
+Proof. intros sc s d x H Hx. exact (proj1 (proj2 (reach_dev sc s d x H Hx))). Qed.
+
 Print Assumptions C05_invariant_meaning.
 Print Assumptions C05_level_capacity_event.
 Print Assumptions C05_level_capacity_step.
 Print Assumptions C05_level_capacity_call.
 Print Assumptions C05_fifo_min_delay.
 
+Print Assumptions C05_always.
 (** Non-vacuity: a buffer of capacity 2 takes a batch of two parts; the level is 2 and the invariant holds. *)
 Example C05_nonvacuous :
   let b := (blank_dev KBuffer) <| d_capacity := Some 2 |> in
